@@ -884,7 +884,7 @@ func TestTLSEndpointSpellings(t *testing.T) {
 	upgrade := "GET / HTTP/1.1\r\nUser-Agent: plain/1.0\r\nUpgrade: socketace/" + version.ProtocolVersion + "\r\nConnection: upgrade\r\n\r\n"
 	wsUpgrade := "GET /ws/all HTTP/1.1\r\nHost: localhost\r\nUpgrade: websocket\r\nConnection: Upgrade\r\nSec-WebSocket-Key: dGhlIHNhbXBsZSBub25jZQ==\r\nSec-WebSocket-Version: 13\r\n\r\n"
 	type spelling struct{ carrier, scheme string }
-	for _, sp := range []spelling{{vlib.CarTCPTLS, ""}, {vlib.CarHTTPS, ""}, {vlib.CarHTTPS, "wss"}, {vlib.CarHTTPS, "http+tls"}, {vlib.CarHTTPS, "ws+tls"}} {
+	for _, sp := range []spelling{{vlib.CarTCPTLS, ""}, {vlib.CarUnixTLS, ""}, {vlib.CarHTTPS, ""}, {vlib.CarHTTPS, "wss"}, {vlib.CarHTTPS, "http+tls"}, {vlib.CarHTTPS, "ws+tls"}} {
 		for k, prefix := range []string{announce + upgrade, wsUpgrade, wsUpgrade + announce + upgrade} {
 			tgt := vlib.NewTarget("data", vlib.EchoHandler)
 			kp := vlib.ServerCertFor("match", "localhost")
@@ -900,7 +900,11 @@ func TestTLSEndpointSpellings(t *testing.T) {
 				t.Fatalf("pair start (%+v): %v", sp, err)
 			}
 			var reply []byte
-			if c, err := net.Dial("tcp", vlib.HostPort(p.SrvPort)); err == nil {
+			network, address := "tcp", vlib.HostPort(p.SrvPort)
+			if sp.carrier == vlib.CarUnixTLS {
+				network, address = "unix", p.UnixPath()
+			}
+			if c, err := net.Dial(network, address); err == nil {
 				c.SetDeadline(time.Now().Add(500 * time.Millisecond))
 				c.Write([]byte(prefix))
 				reply, _ = io.ReadAll(c)
